@@ -25,11 +25,18 @@ static inline uint64_t nd_fix(uint64_t v) { if (nd_n - 1 < ND_MAX) nd_log[nd_n -
 #include <stdio.h>
 #include <stdlib.h>
 #include <string.h>
+#if defined(REAL) && defined(WRAP_FILES)
+/* the link wraps fopen for the code under test: the harness's own input file must use the real one */
+FILE* __real_fopen(const char*, const char*);
+#define ND_FOPEN __real_fopen
+#else
+#define ND_FOPEN fopen
+#endif
 static FILE* nd_in; static int nd_init_done; static uint64_t nd_rng = 88172645463325252ULL; static int nd_from_file;
 static int nd_skip;
 static void nd_init(void) {
   nd_init_done = 1;
-  const char* f = getenv("ND_INPUT"); if (f) { nd_in = fopen(f, "r"); nd_from_file = nd_in != 0; }
+  const char* f = getenv("ND_INPUT"); if (f) { nd_in = ND_FOPEN(f, "r"); nd_from_file = nd_in != 0; if (!nd_in) { printf("ND_INPUT given but cannot be opened\n"); exit(3); } }
   const char* s = getenv("ND_SEED"); if (s) nd_rng ^= strtoull(s, 0, 10) * 0x9E3779B97F4A7C15ULL;
 }
 static uint64_t nd_rand(void) {
